@@ -116,7 +116,7 @@ PROPS = {
         "trusted_base": ["exhaustive reflective sweep `harness observe` (Gen/Observed.lean) and the API translator /verif/extract (Gen/Api.lean)"],
     },
     "C16": {
-        "suites": "C16",
+        "suites": "C16,CLS2",
         "assumptions": COMMON_ASSUME + [
             "the primitives are parameters of the model (EncScheme/BlindScheme); every fact about them is a named hypothesis: "
             "laws DhComm, DhDefined, PubLen, TagLen, CtLen, AeadCorrect, BlindLen; idealisations (computational security stated "
